@@ -30,9 +30,9 @@ OUTSIDE = ["more than 3 blocks", "edges other than on_output/on_every_output/on_
            "handlers raising exceptions of their own (C09)"]
 STUBS = ["Circuit.sblock_queue = list-backed stub (sync scenarios)", "virtual-time loop (Repeat scenario)"]
 ASSUMPTIONS = ["the harness' depth counters are the ground truth for 'is handling an event'"]
-EXPECT_LABELS = {'all': ['no-nested-handling', 'attempt-iff-error', 'guard-released', 'harmless-errors',
+EXPECT_LABELS = {'all': ['no-nested-handling', 'attempt-iff-error', 'init-attempt-iff-error', 'guard-released', 'harmless-errors',
                          'repeat-loop-detected']}
-EXPECT_NOTES = {'all': ['recursion-attempt', 'no-recursion', 'filtered-out', 'eventcond-none', 'cycle-broken-by-equal-value']}
+EXPECT_NOTES = {'all': ['init-recursion-attempt', 'init-no-recursion', 'recursion-attempt', 'no-recursion', 'filtered-out', 'eventcond-none', 'cycle-broken-by-equal-value']}
 FLOORS = {'quick': {'paths': 1000, 'checks': 5000}, 'thorough': {'paths': 10000, 'checks': 50000}}
 
 KINDS = ['P', 'I', 'C', 'F', 'O']
@@ -122,7 +122,7 @@ def make_classes(tr):
     return {'P': P, 'I': I, 'C': C, 'F': F, 'O': O}
 
 
-def edge_event(env, tr, target_name, target_kind, tag, from_kind='P'):
+def edge_event(env, tr, target_name, target_kind, tag, from_kind='P', init_edges=False):
     """an Event towards the target with a final probe filter recording recursion attempts"""
     fk = env.pick(['none', 'sym-reject', 'eventcond'], f'filt_{tag}')
 
@@ -131,7 +131,7 @@ def edge_event(env, tr, target_name, target_kind, tag, from_kind='P'):
             tr.attempts += 1
         return True
     # start-up assignments do not propagate (on_success events of an OutputFunc carry no 'previous' item)
-    filters = [edzed.not_from_undef] if from_kind != 'O' else []
+    filters = [edzed.not_from_undef] if from_kind != 'O' and not init_edges else []
     cond = None
     if fk == 'sym-reject':
         cond = env.bool(f'pass_{tag}')
@@ -156,17 +156,19 @@ def edge_event(env, tr, target_name, target_kind, tag, from_kind='P'):
     return edzed.Event(target_name, etype, efilter=filters)
 
 
-def build(env, tr, kinds, wiring):
+def build(env, tr, kinds, wiring, init_edges=False):
     """wiring: {i: [(j, trigger)]}, trigger in {'out', 'every'}"""
     cls = make_classes(tr)
     names = [f'b{i}' for i in range(len(kinds))]
     blocks = []
     for i, k in enumerate(kinds):
         kw = {}
-        outs = [edge_event(env, tr, names[j], kinds[j], f'{i}_{j}_{n}', k) for n, (j, trg) in enumerate(wiring.get(i, []))
-                if trg == 'out']
-        evs = [edge_event(env, tr, names[j], kinds[j], f'{i}_{j}_e{n}', k) for n, (j, trg) in enumerate(wiring.get(i, []))
-               if trg == 'every']
+        outs = [edge_event(env, tr, names[j], kinds[j], f'{i}_{j}_{n}', k, init_edges)
+                for n, (j, trg) in enumerate(wiring.get(i, [])) if trg == 'out' or (trg == 'enter' and k != 'F')]
+        evs = [edge_event(env, tr, names[j], kinds[j], f'{i}_{j}_e{n}', k, init_edges)
+               for n, (j, trg) in enumerate(wiring.get(i, [])) if trg == 'every']
+        enters = [edge_event(env, tr, names[j], kinds[j], f'{i}_{j}_n{n}', k, init_edges)
+                  for n, (j, trg) in enumerate(wiring.get(i, [])) if trg == 'enter' and k == 'F']
         if k == 'O':
             # the only way out of an OutputFunc: its on_success events (sent for every processed put)
             kw = {'func': (lambda value: value), 'on_success': outs + evs, 'on_error': None}
@@ -177,6 +179,8 @@ def build(env, tr, kinds, wiring):
                 kw['on_every_output'] = evs
         if k == 'I':
             kw['initdef'] = 0
+        if enters:
+            kw['on_enter_off'] = enters         # sent when the FSM enters its initial state
         if k == 'F':
             # the FSM stores the value so that its output follows it (edges fire on change)
             blk = cls[k](names[i], **kw)
@@ -303,6 +307,42 @@ def scen_graph(env, kinds, max_out, nev, shape=None):
     env.obs('graph', kinds, w, circ.error is not None)
 
 
+def scen_init_loop(env, kinds, shape):
+    """event loops that close DURING the initialisation: start-up assignments propagate (no not_from_undef filter),
+    an FSM announces its initial state through on_enter/on_output events, a block that is not initialised yet is
+    initialised by the first event it gets.  An FSM is initialised by a Goto EVENT, so it is 'handling an event'
+    while it enters its initial state; Input/Counter/probe blocks are initialised by a plain routine."""
+    circ = sync_circuit()
+    tr = Tracker()
+    trg = [env.pick(['out', 'every', 'enter'], f'trg{i}') if k == 'F' else env.pick(['out', 'every'], f'trg{i}')
+           for i, k in enumerate(kinds)]
+    n = len(kinds)
+    if shape == 'ring':
+        w = {i: [((i + 1) % n, trg[i])] for i in range(n)}
+    else:       # 'tail': b0 -> b1 -> ... -> b(n-1) -> b1   (the loop does not include the first block)
+        w = {i: [(i + 1 if i + 1 < n else min(1, n - 1), trg[i])] for i in range(n)}
+    blocks = build(env, tr, kinds, w, init_edges=True)
+    exc = None
+    try:
+        start_sync(circ)
+    except Reentered:
+        env.check('no-nested-handling', False, info=lambda: (kinds, w, tr.handled[-8:]))
+        return
+    except Exception as err:
+        exc = err
+    attempted = tr.attempts > 0
+    env.note('init-recursion-attempt' if attempted else 'init-no-recursion')
+    env.check('no-nested-handling', tr.max_depth <= 1, info=lambda: (kinds, w))
+    refused = isinstance(exc, edzed.EdzedCircuitError) or isinstance(circ.error, edzed.EdzedCircuitError)
+    env.check('init-attempt-iff-error', refused if attempted else (exc is None and circ.error is None),
+              info=lambda: (kinds, w, attempted, exc, circ.error))
+    for b in blocks:
+        if isinstance(b, edzed.FSM):
+            env.check('no-stale-chained-event', b._next_event is None if hasattr(b, '_next_event') else True,
+                      info=lambda: (b.name, getattr(b, '_next_event', None)))
+    env.obs('init-loop', kinds, w, attempted, type(exc).__name__)
+
+
 def scen_repeat(env):
     """a loop closed through a Repeat block is detected synchronously (the original event is forwarded at once)"""
     circ = fresh_circuit()
@@ -354,6 +394,16 @@ def shards(tier):
             out.append({'name': f'pair {a}{b}', 'scenario': 'scen_graph',
                         'params': {'kinds': [a, b], 'max_out': 2 if tier == 'thorough' else 1, 'nev': nev if tier == 'thorough' else 1},
                         'cost': 20})
+    for a in KINDS:
+        out.append({'name': f'init loop ring {a}', 'scenario': 'scen_init_loop', 'params': {'kinds': [a], 'shape': 'ring'}})
+        for b in KINDS:
+            for shape in ('ring', 'tail'):
+                out.append({'name': f'init loop {shape} {a}{b}', 'scenario': 'scen_init_loop',
+                            'params': {'kinds': [a, b], 'shape': shape}})
+            if tier == 'thorough' or a == 'F' or b == 'F':
+                for c in (KINDS if tier == 'thorough' else ['F', 'I']):
+                    out.append({'name': f'init loop ring {a}{b}{c}', 'scenario': 'scen_init_loop',
+                                'params': {'kinds': [a, b, c], 'shape': 'ring'}})
     shapes = ['cycle3', 'diamond', 'chain-back']
     for shape in shapes:
         for kinds in (['P', 'P', 'P'], ['I', 'C', 'F'], ['F', 'I', 'P'], ['C', 'F', 'I'], ['I', 'O', 'P'], ['O', 'P', 'O']):
